@@ -257,6 +257,8 @@ def kkt_violations(um: UserModel, x, y, d, opt_tol, active_tol, wv, wc, wo, slop
     tx, tc, ty, ax, ac = tolerances(opt_tol, active_tol, wv, wc, wo)
     if not (np.isfinite(x).all() and np.isfinite(y).all() and np.isfinite(d).all()):
         return [("finite", "non-finite x, y or d")]
+    if np.shape(x) != um.xl.shape or np.shape(y) != um.cl.shape or np.shape(d) != um.xl.shape:
+        return [("finite", "x, y, d have shapes %s, %s, %s for a problem with %d variables and %d rows" % (np.shape(x), np.shape(y), np.shape(d), um.n, um.m))]
     if (x < um.xl).any() or (x > um.xu).any():
         j = int(np.argmax((x < um.xl) | (x > um.xu)))
         bad.append(("bounds", "x[%d]=%r outside [%r,%r]" % (j, x[j], um.xl[j], um.xu[j])))
